@@ -161,7 +161,11 @@ def main(tier, seed):
     if tier == "thorough":
         layouts.append(("flat4", FLAT4, [c("", ["xxh64"])], ["xxh64"]))
     for name, tree, prep, fmts in layouts:
-        base = ops.build(ctx, tree, prep, expect=[0] * len(prep))
+        try:
+            base = ops.build(ctx, tree, prep, expect=[0] * len(prep))
+        except ops.ScenarioFailure as f:
+            eng.notes.setdefault("skipped_scenarios", []).append(str(f)[:300])
+            continue
         files = sorted(p for p, v in tree.items() if v is not DIR)
         hd = {f: ["p", "q"] for f in files}
         asg = assignments(tree, hd, files, KINDS + ("newdir",) if name == "flat-other-format" else KINDS)
@@ -188,10 +192,14 @@ def main(tier, seed):
                             cases.append({"layout": "flat-chain3", "base": base, "mapping": mp, "steps": steps + [step3], "fmts": fmts})
                         cases.append({"layout": "flat-chain2", "base": base, "mapping": mp, "steps": steps, "fmts": fmts})
     # history inside a nested child: renames stay inside one history
-    nbase = ops.build(ctx, NEST, [c("p", ["md5"]), c("", ["xxh64"])], expect=[0, 0])
+    try:
+        nbase = ops.build(ctx, NEST, [c("p", ["md5"]), c("", ["xxh64"])], expect=[0, 0])
+    except ops.ScenarioFailure as f:
+        eng.notes.setdefault("skipped_scenarios", []).append(str(f)[:300])
+        nbase = None
     files = sorted(p for p, v in NEST.items() if v is not DIR)
     hd = {"p/a.txt": ["p", "p/s"], "p/s/b.txt": ["p/s", "p"], "q/c.txt": ["q", "q"]}
-    for kinds in itertools.product(KINDS, repeat=3):
+    for kinds in itertools.product(KINDS, repeat=3) if nbase is not None else []:
         if kinds[2] in ("move", "move+rename"):
             continue
         mp = {f: target(f, k, NEST, hd[f]) for f, k in zip(files, kinds)}
